@@ -281,7 +281,8 @@ class PureScheduler:                                    # pylint: disable=r0902
                           .format(job, container_label, before - after))
             # recursively scan nested schedulers
             if isinstance(job, PureScheduler):
-                changes = job.sanitize(verbose) or changes
+                # sanitize() returns True when nothing was changed
+                changes = (not job.sanitize(verbose)) or changes
         return not changes
 
     ####################
